@@ -51,7 +51,10 @@ def run_variant(args):
         mod = importlib.import_module("rules." + v["prop"])
         run = report.Run(v["prop"], project, "quick")
         mod.run(run)
-        # floors
+        # vacuity floors count as in the real check
+        for rule_, n_ in sorted(run.floors.items()):
+            if run.count(rule_) < n_:
+                run.undecided(rule_, msg="vacuity guard: %d obligation(s) generated, floor is %d" % (run.count(rule_), n_), kind="floor", construct="<floor>")
         und = [o for o in run.obs if o.verdict == report.UNDECIDED]
         viol = [o for o in run.obs if o.verdict == report.VIOLATED]
         known = report.load_known(os.path.join(HERE, "known_findings.json"))
